@@ -1556,6 +1556,9 @@ func (s *State) checkIOSInterfaces() error {
 						" Device: %s, Netspoc: %s", name, aInfo.vrf, bInfo.vrf)
 			}
 		} else {
+			// If some ACL or crypto map is bound to this unmanaged
+			// interface, it must not be changed or deleted.
+			s.markNeeded(c.sub)
 			// If config from Netspoc has no interface definitions, it is
 			// probably of type "managed=routing_only", and Netspoc won't
 			// change any interface config.
